@@ -68,6 +68,28 @@ Theorem C18_mv_sound_in_base : forall fuel K intent bg base pti pstart l,
 Proof. exact mv_sound_in_base. Qed.
 Print Assumptions C18_mv_sound_in_base.
 
+(* the by-name entry point: names are resolved through the pattern structures' OWN names (the
+   order of the `pattern_types` dict, which need not be the order of attribute_names), and the
+   answer is the by-index answer re-keyed by those names; so C18_mv_sound / C18_mv_sound_in_base
+   speak about it too *)
+Theorem C18_mv_named_is_renamed_index : forall fuel K snames onames intent bg base pti pstart l,
+  mv_get_minimal_generators_named fuel K snames onames intent bg base pti pstart = MOk l ->
+  exists l',
+    mv_get_minimal_generators fuel K (by_struct_names snames intent)
+      (match bg with Some d => Some (by_struct_names snames d) | None => None end)
+      (match base with Some b => Some (idx_of_names onames b) | None => None end)
+      (match pti with Some p => Some (map (name_to_ps snames) p) | None => None end) pstart = MOk l' /\
+    l = map (rename_dd snames) l'.
+Proof. exact mv_named_is_renamed_index. Qed.
+Print Assumptions C18_mv_named_is_renamed_index.
+
+Theorem C18_by_struct_names_full : forall (snames : list nat) (f : nat -> descr),
+  NoDup snames ->
+  by_struct_names snames (map (fun ps => (nth ps snames 0, f ps)) (seq 0 (length snames)))
+  = map (fun ps => (ps, f ps)) (seq 0 (length snames)).
+Proof. exact by_struct_names_full. Qed.
+Print Assumptions C18_by_struct_names_full.
+
 (* the observation behind the non-termination: when the base objects miss a part of the intent's
    extension, no amount of fuel produces an answer (the code's `while` never exits) *)
 Theorem C18_mv_no_answer_outside_guard : forall fuel K intent bg base pti pstart,
